@@ -357,4 +357,12 @@ def ishape (f : Fld) (dir : Dir) (cum : Bool) : List Nat :=
     | .error _ => []
   | _ => []
 
+/-- product of the edge lengths of the named directions (the integrated extent) -/
+def extent (r : Region) : List String → Rat
+  | [] => 1
+  | d :: ds =>
+    (match r.dim2index d with
+     | .ok a => r.edge a
+     | .error _ => 1) * extent r ds
+
 end DFV.C06
